@@ -20,6 +20,18 @@ func scnTamper(payload, role, action string) *Scenario {
 	}
 	s.Script = starts("A", "B")
 	t := 1*s.H + 43*ms + 3*us
+	if role == "lone" {
+		// a single instance that followed an outside record first (so its watcher runs
+		// while it leads) and is the only one that can fill a vacancy afterwards
+		s.Insts = insts("A")
+		s.Script = []Item{
+			{At: 0, Actor: "outside0", Do: "put", Payload: `{"id":"Z","token":"tz","priority":0}`, Fixed: true},
+			{At: 1 * ms, Actor: "startA", Do: "start", Inst: "A", Fixed: true},
+			{At: 450 * ms, Actor: "outside0", Do: "delete", Fixed: true}, // A leads from 505 ms on
+		}
+		t = 505*ms + s.H + 43*ms + 3*us
+		s.DevFrom = 505 * ms
+	}
 	switch action {
 	case "put":
 		s.Script = append(s.Script, Item{At: t, Actor: "outside", Do: "put", Payload: payload})
@@ -30,6 +42,9 @@ func scnTamper(payload, role, action string) *Scenario {
 	}
 	T := hbTimeout(s.H)
 	s.Horizon = t + s.H + 2*T + s.TTL + 300*ms
+	if role == "lone" {
+		s.Horizon += 1500 * ms
+	}
 	s.MaxSteps = 1200
 	s.LatencyBound = s.H/2 - ms
 	s.DelayMenu = []time.Duration{s.H/2 - 2*ms}
@@ -41,7 +56,7 @@ func scnTamper(payload, role, action string) *Scenario {
 func c13Plan(tier string) []PlanItem {
 	var items []PlanItem
 	d := 1
-	for _, role := range []string{"plain", "takeover1", "takeover2"} {
+	for _, role := range []string{"plain", "takeover1", "takeover2", "lone"} {
 		items = append(items, PlanItem{scnTamper("", role, "delete"), d})
 		for _, p := range payloadAlphabet {
 			dd := d
@@ -63,7 +78,7 @@ func init() {
 	oracles["C13"] = oracleC13
 	props["C13"] = &propDef{
 		Level:  "exploration",
-		Rule:   "payload alphabet (50 shapes) x role set-up {plain follower/leader, takeover candidate with equal priority, takeover candidate with higher priority} x outside action {put, delete, put then delete}, the action placed by the explorer at every choice point of the run (<= D deviations, plus latencies < H/2); oracle: no worker death, no zero-time operation storm (>64 store ops of one instance at one virtual instant), bounded goroutines, no stuck goroutine, every replacement of a live foreign record is a legitimate preemption of a parseable record, every promotion follows an acquisition write of the claimer, a leader whose record was rewritten or deleted is demoted within H+2T; non-trivial = the outside action was applied",
+		Rule:   "payload alphabet (50 shapes) x role set-up {plain follower/leader, takeover candidate with equal priority, takeover candidate with higher priority, a lone instance that leads with its watcher running} x outside action {put, delete, put then delete}, the action placed by the explorer at every choice point of the run (<= D deviations, plus latencies < H/2); oracle: no worker death, no zero-time operation storm (>64 store ops of one instance at one virtual instant), bounded goroutines, no stuck goroutine, every replacement of a live foreign record is a legitimate preemption of a parseable record, every promotion follows an acquisition write of the claimer, a leader whose record was rewritten or deleted is demoted within H+2T, the key is not left without a live record for more than TTL + 1 s at the end of the run; non-trivial = the outside action was applied",
 		Assume: []string{"byte strings outside the alphabet are not decided", "stack exhaustion by unbounded recursion is observed through its operation storm (the spin guard ends the run before the Go stack limit)"},
 		Plan:   c13Plan,
 	}
@@ -182,6 +197,43 @@ func oracleC13(r *Result) ([]Violation, bool) {
 		}
 		if !demoted {
 			s.add(limit, "tampered-leader-not-demoted", "%s led when an outside party changed its record at %v and still had not stepped down by %v (H+2T)", leader, ch.t, limit)
+		}
+	}
+	// still responding: when the run ends, the key has not been without a live record for
+	// more than a second while a started, non-stopped, connected instance exists (500 ms
+	// periodic check + 100 ms jitter + 4 x 100 ms of injected latency at most)
+	{
+		var lastLive time.Duration = -1
+		vacantSince := time.Duration(-1)
+		for _, e := range r.Trace {
+			if e.K != "q" {
+				continue
+			}
+			if e.Rec != nil {
+				lastLive, vacantSince = e.T, -1
+			} else if vacantSince < 0 {
+				vacantSince = e.T
+				if lastLive >= 0 && r.Scn.TTL > 0 {
+					// nothing happened since the previous snapshot but the passage of time
+					vacantSince = lastLive
+				}
+			}
+		}
+		if vacantSince >= 0 && r.EndT-vacantSince > r.Scn.TTL+time.Second {
+			cand := ""
+			for i := len(r.Trace) - 1; i >= 0; i-- {
+				if e := r.Trace[i]; e.K == "q" {
+					for _, sn := range e.Snap {
+						if sn.Started && !sn.StopDone && !sn.InStop && !sn.Cut {
+							cand = sn.I
+						}
+					}
+					break
+				}
+			}
+			if cand != "" {
+				s.add(r.EndT, "stopped-responding/vacancy-not-refilled", "no live record since %v at the latest (run ends at %v) although %s is started, connected and not stopped", vacantSince+r.Scn.TTL, r.EndT, cand)
+			}
 		}
 	}
 	return s.vs, nontrivial
